@@ -236,7 +236,7 @@ PROPS = {
     "C02": {
         "level": "proof",
         "level_prefix": "Partial proof -- contracts discharged without bound on the mechanisms named below, not the whole statement (bounded stand-ins and what is left out are listed): ",
-        "units": ["compressors", "msgbuilder", "msgsections", "wirehdr"],
+        "units": ["compressors", "msgbuilder", "msgsections", "wirehdr", "starterr"],
         "vx_search": {"bin": "c02_search_builder_sequences", "crate": "replay", "release": True,
                       "what": "22621 sequences of at most 4 answer pushes (three owner names sharing suffixes; unrestricted or under a push limit "
                               "that makes the push fail after 1, 5 or 12 octets) x {no compressor, Static-, Tree-, HashCompressor}: the message "
@@ -511,7 +511,7 @@ PROPS = {
     "C16": {
         "level": "proof",
         "level_prefix": "Partial proof -- contracts discharged without bound on the mechanism named below, not the whole statement (what is left out is listed): ",
-        "units": ["ednsneg"],
+        "units": ["ednsneg", "starterr"],
         "kani": [],
         "explanation": "The size clause of the statement, at the place where the limit is decided. EdnsMiddlewareSvc::preprocess (net/server/middleware/edns.rs, the whole 170-line function, real text): for every request, "
                        "exactly the requests RFC 6891 6.1.1 / 6.1.3 and RFC 7828 3.2.1 name are broken off -- more than one OPT record, an OPT record that does not parse, a keep-alive option with a timeout over TCP: FORMERR; "
@@ -521,7 +521,9 @@ PROPS = {
                        "stored value; the model context carries the advertised size of the request's first OPT record as ghost state). The u16 arithmetic and Ord::clamp (lo <= hi) cannot panic. "
                        "reserve_space_for_opt (real text): 11 octets are reserved for the OPT record of the response, 17 over TCP (keep-alive option). MandatoryMiddlewareSvc::{preprocess, postprocess} "
                        "(middleware/mandatory.rs, real text): in strict mode IQUERY is answered NOTIMP and a QUERY with more than one question FORMERR, nothing else is broken off; whatever the service produced "
-                       "leaves with the ID of its request, QR set and RD copied from the request, also when truncation fails and a SERVFAIL takes its place.",
+                       "leaves with the ID of its request, QR set and RD copied from the request, also when truncation fails and a SERVFAIL takes its place. MessageBuilder::{start_answer, start_error} (unit starterr, base/message_builder.rs, real text -- every server error path goes through "
+                       "mk_error_response -> start_error): the response header gets the request's ID, QR set, the request's opcode and RD bit and the given code; the request's questions are copied in order; start_answer "
+                       "fails if one does not fit, start_error never fails -- it stops at the first question that does not fit and answers SERVFAIL.",
         "not_covered": "Everything else of the statement: that every response is sent back once, to the requester, with the request's ID and question, correctly framed (sockets, tasks and middleware stacks over tokio); that the "
                        "limit decided here is the one enforced -- MandatoryMiddlewareSvc::truncate compares the response length with the hint (512 without EDNS) and rebuilds header, question and OPT record, which is not "
                        "under contract (message builder with closures; the rebuilt message is not compared with the limit again: an observation, see DESIGN.md) --; TC bit and well-formedness of truncated messages; "
